@@ -12,6 +12,11 @@
 //! result is compared BIT-WISE (masked / padding positions must be exactly `T::zero()`, i.e. +0.0); shapes beyond the small scope
 //! (`big_shapes()`, 4900-element matrices, sides to 130) and `zero_shapes()` for every structural constructor.  The constructors of
 //! this property are associated functions / methods of `Array<N>` only: there is no `impl … for Result<Array<N>, _>` to exercise.
+//!
+//! Round 5 (`gen_streams5`): band sweeps of the sequence constructors (whole start / stop / step of every magnitude below 2^53 with a
+//! small count, plain element types incl. `u64`; an integral linspace grid is demanded bit for bit), dense value pools for the `powf`
+//! kernel (non-integers cross as the exact dyadic rational of the f64, `fx`), `mi_<macro>` = the constructor macros with impure
+//! argument expressions (evaluation count and order are observed), one-byte results above 2^24 elements for the cheap constructors.
 use arrharness::*;
 
 // ------------------------------------------------------------------------------------------------ element types
@@ -2100,5 +2105,5 @@ fn nontrivial(op: &str, args: &[&str]) -> bool {
 
 fn main() {
     harness_main(Spec { prop: "C16", gen, exec, nontrivial, hang_secs: 30,
-        rule: "exhaustive per element type (i32 i64 u8 f64): fills over every shape rank<=3 sides 0..3 and every matrix 0..6x0..6 (thorough 0..8); eye/tri/tril/triu/diag over every matrix side pair x every offset -7..7 (+default; eye 0..7 since k is usize); stacks of matrices rank 3-4, ranks 0/1 (refused); vander lengths 0..6 x columns 0..6 x both orders; arange starts x stops x whole steps 1,2,3,5,12 (+ negative and fractional steps on f64); linspace/geomspace/logspace counts 0..60 (thorough 0..80) x endpoint none/true/false x 4-10 (start,stop) pairs x bases; rand over every shape rank<=3 sides 0..3 + all matrices (>200 shapes); array_* macros in every arity; robustness streams: value-class types i8v..u64v isizev usizev f32v f64v (tags mapped to |x|>2^53, MIN/MAX, u8 255, -0.0, +-inf, NaN, subnormals; bit-wise comparison, masked positions exactly +0) for tril/triu/tril+triu/diag/diagflat/diag.diag/full/full_like/zeros/ones/*_like/eye/identity/tri over matrices 0..4x0..4 (thorough 0..6) x offsets, stacks, ranks 0/1, zero_shapes, extreme offsets; big_shapes (to 70x70, 130x17, 300x2x2) and zero_shapes for every structural constructor on the plain and the value-class types, eye/tri/identity to side 130, vander on 1030 values, linspace to 4100 points, geomspace/logspace to 1030, arange to 4100 terms; part-2 streams: the same arguments through the element types i32 f64 u8 f64 f32 f64 i64 f32 ... back to back (linspace/geomspace/logspace/arange/eye/tri/identity/fills/rand/macros/tril/triu/diag/vander), refused-then-valid calls, collision_shape_pairs A,B,A, counts n / n+2^8 / n+2^16, A-B-A re-run of the previous case on every third case; exact decimal rationals beyond i64 (driver in Rat, executor by a correctly rounded big-integer division validated against the hardware division on a seventh of the small rationals): linspace/geomspace/logspace with bounds 3*2^60 ... f64::MAX/2, 10^39, 10^300 and 2^-52 ... 2^-1074, 10^-17 ... 10^-300 on f64 and f32 scales on f32; offsets c+2^8, c+2^16, c+2^32; every side 1..130 (thorough 300); counts 19..1009; ranks 5..8; huge_shapes (16 384 ... 140 000 elements) for fills / masks / diag / eye / tri / vander, linspace to 131 073 points, arange to 142 858 terms; then a seeded random stream (sides to 13, offsets to +-15, rank to 5, counts to 200). distinct = distinct case lines; non-trivial = result/operand with >= 2 elements (matrix with both sides >= 2, sequence with >= 2 points)" });
+        rule: "exhaustive per element type (i32 i64 u8 f64): fills over every shape rank<=3 sides 0..3 and every matrix 0..6x0..6 (thorough 0..8); eye/tri/tril/triu/diag over every matrix side pair x every offset -7..7 (+default; eye 0..7 since k is usize); stacks of matrices rank 3-4, ranks 0/1 (refused); vander lengths 0..6 x columns 0..6 x both orders; arange starts x stops x whole steps 1,2,3,5,12 (+ negative and fractional steps on f64); linspace/geomspace/logspace counts 0..60 (thorough 0..80) x endpoint none/true/false x 4-10 (start,stop) pairs x bases; rand over every shape rank<=3 sides 0..3 + all matrices (>200 shapes); array_* macros in every arity; robustness streams: value-class types i8v..u64v isizev usizev f32v f64v (tags mapped to |x|>2^53, MIN/MAX, u8 255, -0.0, +-inf, NaN, subnormals; bit-wise comparison, masked positions exactly +0) for tril/triu/tril+triu/diag/diagflat/diag.diag/full/full_like/zeros/ones/*_like/eye/identity/tri over matrices 0..4x0..4 (thorough 0..6) x offsets, stacks, ranks 0/1, zero_shapes, extreme offsets; big_shapes (to 70x70, 130x17, 300x2x2) and zero_shapes for every structural constructor on the plain and the value-class types, eye/tri/identity to side 130, vander on 1030 values, linspace to 4100 points, geomspace/logspace to 1030, arange to 4100 terms; part-2 streams: the same arguments through the element types i32 f64 u8 f64 f32 f64 i64 f32 ... back to back (linspace/geomspace/logspace/arange/eye/tri/identity/fills/rand/macros/tril/triu/diag/vander), refused-then-valid calls, collision_shape_pairs A,B,A, counts n / n+2^8 / n+2^16, A-B-A re-run of the previous case on every third case; exact decimal rationals beyond i64 (driver in Rat, executor by a correctly rounded big-integer division validated against the hardware division on a seventh of the small rationals): linspace/geomspace/logspace with bounds 3*2^60 ... f64::MAX/2, 10^39, 10^300 and 2^-52 ... 2^-1074, 10^-17 ... 10^-300 on f64 and f32 scales on f32; offsets c+2^8, c+2^16, c+2^32; every side 1..130 (thorough 300); counts 19..1009; ranks 5..8; huge_shapes (16 384 ... 140 000 elements) for fills / masks / diag / eye / tri / vander, linspace to 131 073 points, arange to 142 858 terms; part-3 streams: all-equal-not-identical and constant sources, equal bounds, offsets k*2^64/s+small, results above 2^20 elements (n_ lines) judged in place by a harness-native reference validated against the model on every ordinary case; round-5 streams: band sweeps of linspace / arange / array_arange! (whole start / stop / step from {0, +-1, +-2^k, +-(2^k+-1), 10^k}, k to 52 resp. 15, every magnitude below 2^53 plus exact multiples of powers of two to 2^62, counts to 300 incl. the first count at which an offset reaches 2^16 / 2^24 / 2^31 / 2^32; i64 f64 u64 i32 f32 u8; integral linspace grids bit for bit), value pools of the powf kernel (integer exponents and bounds -1100..1100, mathematical constants with reciprocals and negatives, 2^k +- 1 ulp for k = -1074..1023 and the f32 analogue, vander of every integer -1100..1100 and of exact powers to 2^52), constructor macros with impure arguments (evaluated once, in order), one-byte results above 2^24 elements for every cheap constructor; then a seeded random stream (sides to 13, offsets to +-15, rank to 5, counts to 200). distinct = distinct case lines; non-trivial = result/operand with >= 2 elements (matrix with both sides >= 2, sequence with >= 2 points)" });
 }
